@@ -13,11 +13,12 @@ import LenaModel.Model.C19
   {"op":"uwg","ctx":O,"new":[O],"old":O}                           -> {"out":O}
   {"op":"hist","reuse":b,"watch":[p],"steps":[{"del":[p],"run":R}]} -> {"runs":[{"files":..,"log":..,"vals":..} | {"e":E}]}
         (reuse: one pipeline object for all runs; R then carries "tplm", the modification time of the template file)
+  {"op":"render","tpl":n,"data":D,"out":O,"group":[O]|null}          -> {"vals":[{"data":D,"out":O,"group":..}]}   RenderLaTeX.run on one value
   {"op":"render2","tpls":[[t,m],..]}                               -> {"r":[t..]}  templates rendered by ONE RenderLaTeX
 
   O = {"filename","dirname","fileext","filetype","prefix","suffix","filepath","changed"} (null = absent)
   MF = {"filename","dirname","fileext","prefix","suffix": T|null, "overwrite":b}; T = [s|null] (null = {{name}})
-  M = "normal"|"eu"|"ow";  D = {"text":CT} | {"path":p} | {"many":[p]}
+  M = "normal"|"eu"|"ow";  D = {"text":CT} | {"path":p} | {"many":[p]} | {"writer":CT};  "write" also takes "nowrite":b
   W = {"files":[{"p":p,"c":CT,"m":n}],"clock":n};  F = {"c":CT,"w":b} (w: written during this request)
   CT = {"csv":n} | {"tex":n,"deps":[p]} | {"raw":s} | {"pdf":[CT,[CT|null]]} | {"png":CT}
   R = {"outdir","w1","w2","lo","po","mf","gmf","layout":"separate"|"group","tpl":n,"plots":[{"name":s|null,"data":n}]} -/
@@ -142,12 +143,16 @@ def data? (j : Json) : Option (Data Content) :=
   | none =>
     match (j.getObjVal? "path").toOption with
     | some p => (str? p).map Data.path
-    | none => (strList? (getD j "many")).map Data.many
+    | none =>
+      match (j.getObjVal? "writer").toOption with
+      | some c => (content? c).map Data.writer
+      | none => (strList? (getD j "many")).map Data.many
 
 def ofData : Data Content → Json
   | .text c => Json.mkObj [("text", ofContent c)]
   | .path p => Json.mkObj [("path", p)]
   | .many ps => Json.mkObj [("many", ofList Json.str ps)]
+  | .writer c => Json.mkObj [("writer", ofContent c)]
 
 def ofEvent : Event → Json
   | .write p => Json.arr #["write", p]
@@ -262,7 +267,8 @@ def handle (j : Json) : Json :=
     match str? (getD j "outdir"), mode? (getD j "mode"), world? (getD j "world"), data? (getD j "data"),
           outCtx? (getD j "out") with
     | some d, some m, some w, some dt, some o =>
-      match writeVal stubConv d m w { data := dt, name := none, out := o, group := none } with
+      match writeVal stubConv d m w { data := dt, name := none, out := o, group := none,
+                                      noWrite := (bool? (getD j "nowrite")).getD false } with
       | .error e => ofExc e
       | .ok (w', v) => ofResult watch w.clock w' [v]
     | _, _, _, _, _ => err "bad write args"
@@ -281,6 +287,15 @@ def handle (j : Json) : Json :=
       | .error e => ofExc e
       | .ok (w', v) => ofResult watch w.clock w' [v]
     | _, _, _, _, _ => err "bad png args"
+  | some "render" =>
+    match nat? (getD j "tpl"), data? (getD j "data"), outCtx? (getD j "out") with
+    | some t, some dt, some o =>
+      let g := if (getD j "group").isNull then some none
+               else ((arr? (getD j "group")).bind fun a => a.toList.mapM outCtx?).map some
+      match g with
+      | some g => Json.mkObj [("vals", ofList ofVal [renderVal stubConv t { data := dt, name := none, out := o, group := g }])]
+      | none => err "bad render group"
+    | _, _, _ => err "bad render args"
   | some "render2" =>
     match (arr? (getD j "tpls")).bind (fun a => a.toList.mapM fun x =>
         match arr? x with
